@@ -343,7 +343,14 @@ _OWNERS = {}
 
 def shape_owner(a):
     """integer token of the array object whose shape is meant (views may have other shapes)"""
+    while getattr(a, "shape_like", None) is not None:
+        a = a.shape_like            # np.asarray(x) / x.view(np.ndarray): another object, the same shape
     return _OWNERS.setdefault(id(a), len(_OWNERS) + 1)
+
+
+def same_shape_view(a, like):
+    a.shape_like = like
+    return a
 
 
 dimlen = z3.Function("np_dimlen", z3.IntSort(), z3.IntSort(), z3.IntSort())
@@ -370,6 +377,11 @@ class SShape(SV):
 
     def sv_pyclass(self):
         return "tuple"
+
+    def sv_truth(self, it):
+        # a shape tuple is falsy exactly for 0-d arrays
+        s_ = to_z3(self.scalar)
+        return z3.Not(s_) if is_z3(s_) else not s_
 
     def sv_compare(self, it, op, other, reflected):
         if isinstance(other, tuple) and len(other) == 0:
@@ -415,7 +427,7 @@ def _view(it, a):
             if not it_.branch(same):
                 raise Unsupported("reinterpreting view with a different dtype")
         if isinstance(typ, ExternalRef) and typ.name == "numpy.ndarray":
-            return SNd(arr_buf(a), arr_scalar(a), arr_size(a), "view")
+            return same_shape_view(SNd(arr_buf(a), arr_scalar(a), arr_size(a), "view"), a)
         if isinstance(typ, ClassRef):
             o = SObj(typ.ci, label="view_" + typ.ci.name)
             o.fields["_buf"] = arr_buf(a)
@@ -627,12 +639,12 @@ def _np_asarray(it, x, dtype=None, **kw):
         raise Unsupported("np.asarray keyword %s" % k_)
     if is_array(x):
         if dtype is None:
-            return SNd(arr_buf(x), arr_scalar(x), arr_size(x), "asarray")
+            return same_shape_view(SNd(arr_buf(x), arr_scalar(x), arr_size(x), "asarray"), x)
         d = np_dtype(it, dtype)
         same = z3.And(to_z3(d.kind) == to_z3(arr_kind(x)),
                       to_z3(d.itemsize) == to_z3(arr_itemsize(x)))
         if it.branch(same):
-            return SNd(arr_buf(x), arr_scalar(x), arr_size(x), "asarray")
+            return same_shape_view(SNd(arr_buf(x), arr_scalar(x), arr_size(x), "asarray"), x)
         return cast_array(it, x, d, "asarray")
     s = scalar_term(it, x)
     if s is not None:
@@ -643,8 +655,42 @@ def _np_asarray(it, x, dtype=None, **kw):
             return cast_array(it, arr, np_dtype(it, dtype), "asarray")
         return arr
     if isinstance(x, (list, tuple)):
-        raise Unsupported("np.asarray of a python sequence")
+        return stack_sequence(it, x, dtype)
     raise Unsupported("np.asarray(%r)" % (x,))
+
+
+assumed("numpy-array-of-sequence", "np.array / np.asarray of a python list or tuple of numbers and 0-d arrays "
+        "(quantities included: their units are not looked at by NumPy): a fresh 1-d ndarray with one element "
+        "per member holding that member's number; the arbitrary element of the abstraction is the number of "
+        "an arbitrarily chosen member (ghost field `member` of the buffer says which)")
+
+
+def stack_sequence(it, xs, dtype=None):
+    if dtype is not None or len(xs) == 0 or len(xs) > 4:
+        raise Unsupported("np.array of a python sequence (dtype= / empty / long)")
+    elems = []
+    for m in xs:
+        m = const_float(m)
+        if is_array(m):
+            if not it.branch(to_z3(arr_scalar(m))):
+                raise Unsupported("np.array of a sequence with a member that is not 0-d")
+            elems.append(read_elem(it, m))
+        else:
+            t = scalar_term(it, m)
+            if t is None:
+                raise Unsupported("np.array of a sequence with member %r" % (m,))
+            elems.append(t)
+    pick = 0
+    for i in range(1, len(xs)):
+        if it.branch(it.fresh_bool("arbitrary_element_is_member_%d" % i)):
+            pick = i
+            break
+    k = z3.String(it.ctx.fresh_name("stacked_kind"))
+    n = it.fresh_int("stacked_itemsize")
+    it.assume(valid_dtype(k, n))
+    b = SBuf(to_real(elems[pick]), k, n)
+    b.member = (pick, xs[pick])
+    return SNd(b, False, len(xs), "stacked")
 
 
 @np_fn("numpy.result_type", "np.result_type(d, np.float64) for a float/complex dtype d: the wider of the two, "
@@ -686,6 +732,8 @@ def _np_array(it, x, *a, **kw):
         if kw.get("subok") and is_unyt_array(x):
             return _view(it, res)(it, ClassRef(x.cls)) if False else _rewrap(it, res, x)
         return res
+    if isinstance(x, (list, tuple)):
+        return stack_sequence(it, x, kw.get("dtype"))
     return _np_asarray(it, x, **{k: v for k, v in kw.items() if k == "dtype"})
 
 
@@ -1026,6 +1074,90 @@ for _n in UNARY_UFUNCS:
     _f = _ufunc1(_n)
     np_fn("numpy." + _n, "element-wise %s; out= writes through the buffer" % _n)(_f)
     UD.EXTERNAL_CALLS["numpy." + _n + ".__call__"] = _f
+
+
+# --------------------------------------------------------------------------- reductions
+# ufunc.reduce over an array abstracted to one arbitrary element: the result element is an
+# uninterpreted function of the input element and of the number of elements reduced over; the
+# algebra a contract needs (degree of homogeneity) is stated there as a "NumPy:" axiom
+REDUCIBLE = ("add", "maximum", "minimum", "multiply")
+assumed("numpy-ufunc-reduce", "np.<ufunc>.reduce(x, axis=, out=, keepdims=, initial=, where=): the result "
+        "element is the uninterpreted function np_reduce_<ufunc>(element, number of elements combined); "
+        "the number combined is x.shape[axis] for an integer axis of an array with ndim >= 1 and x.size for "
+        "axis=None (or a 0-d x); axis=None gives a 0-d result, an integer axis a result with one dimension "
+        "less; dtype as the input's (integer results may widen); add/maximum/minimum are positively "
+        "homogeneous of degree 1 and multiply of degree n in the elements (stated in the contracts)")
+
+
+def reduce_fn(name):
+    key = ("reduce_" + name, 2)
+    if key not in UFN:
+        UFN[key] = z3.Function("np_reduce_" + name, z3.RealSort(), z3.IntSort(), z3.RealSort())
+    return UFN[key]
+
+
+def reduce_count(it, x, axis):
+    """number of elements one result element combines"""
+    if axis is None:
+        return to_z3(arr_size(x))
+    if not isinstance(axis, int):
+        raise Unsupported("reduce over axis %r" % (axis,))
+    n = ndim_of(z3.IntVal(shape_owner(x)))
+    it.assume((n == 0) == to_z3(arr_scalar(x)))
+    if it.branch(to_z3(arr_scalar(x))):
+        if axis not in (0, -1):
+            it.raise_("AxisError")
+        return z3.IntVal(1)
+    if axis >= 0:
+        if it.branch(n <= axis):
+            it.raise_("AxisError")
+    else:
+        if it.branch(n + axis < 0):
+            it.raise_("AxisError")
+    return dim_length(it, shape_owner(x), axis)
+
+
+def _reduce(name):
+    def f(it, x, axis=0, dtype=None, out=None, keepdims=False, initial=None, where=True, **kw):
+        if kw or dtype is not None or initial is not None or where is not True or keepdims is not False:
+            raise Unsupported("np.%s.reduce keywords" % name)
+        if is_unyt_array(x) or is_unyt_array(out):
+            raise Unsupported("np.%s.reduce on a unyt operand at a call site" % name)
+        if not is_array(x):
+            raise Unsupported("np.%s.reduce operand" % name)
+        cnt = reduce_count(it, x, axis)
+        e = reduce_fn(name)(to_real(read_elem(it, x)), cnt)
+        if out is not None:
+            b = arr_buf(out)
+            if it.branch(cannot_cast_same_kind(to_z3(arr_kind(x)), b.kind)):
+                it.raise_("TypeError")
+            b.elem = e
+            b.writes += 1
+            b.origin = ("reduce", name, cnt)
+            it.ctx.events.append(("buf-write", b.bid))
+            return out
+        k = arr_kind(x)
+        n = it.fresh_int("reduce_itemsize")
+        it.assume(z3.And(n >= to_z3(arr_itemsize(x)), valid_dtype(to_z3(k), n)))
+        it.assume(z3.Implies(z3.Not(is_int_kind(k)), n == to_z3(arr_itemsize(x))))
+        if axis is None:
+            scalar, size = z3.BoolVal(True), z3.IntVal(1)
+        else:
+            nd = ndim_of(z3.IntVal(shape_owner(x)))
+            scalar = z3.Or(to_z3(arr_scalar(x)), nd == 1)
+            size = it.fresh_int("reduce_size")
+            it.assume(size >= 0)
+            it.assume(z3.Implies(scalar, size == 1))
+        r = SNd(SBuf(e, k, n), z3.simplify(scalar), size, name + ".reduce")
+        arr_buf(r).origin = ("reduce", name, cnt)
+        return r
+    return f
+
+
+for _n in REDUCIBLE:
+    _f = _reduce(_n)
+    np_fn("numpy.%s.reduce" % _n, "np.%s.reduce (see numpy-ufunc-reduce)" % _n)(_f)
+    UD.EXTERNAL_CALLS["numpy." + _n + ".reduce"] = _f
 
 
 UD.EXTERNAL_VALUES["numpy.ndarray"] = lambda it: ExternalRef("numpy.ndarray")
